@@ -1,6 +1,7 @@
 package main
 
 import (
+	"sync/atomic"
 	"bytes"
 	"fmt"
 	"sort"
@@ -62,6 +63,9 @@ func runEvents(op string) (out string) {
 	}()
 	nclients := 2
 	var acts []string
+	if strings.HasPrefix(op, "Z:") {
+		return runEventFlood(op)
+	}
 	for _, t := range strings.Fields(op) {
 		if strings.HasPrefix(t, "L:") {
 			nclients, _ = strconv.Atoi(t[2:])
@@ -270,6 +274,71 @@ func runEvents(op string) (out string) {
 	return strings.TrimSpace(strings.Join(parts, " ") + " " + strings.Join(anomalies, " "))
 }
 
+// runEventFlood: Z:<n>:<arguments per event>:<ms> - two registered clients, the first does not read for <ms>
+// milliseconds while the backend emits n large events back to back. The proxy's queues fill up and everything waits for
+// the slow client; once it reads, every event reaches both clients.  real: z0=<events client 0 got> z1=<…>
+func runEventFlood(op string) string {
+	p := strings.Split(strings.Fields(op)[0][2:], ":")
+	for len(p) < 3 {
+		p = append(p, "0")
+	}
+	n, _ := strconv.Atoi(p[0])
+	nargs, _ := strconv.Atoi(p[1])
+	ms, _ := strconv.Atoi(p[2])
+	env, err := e2e.Start(e2e.Options{Hosts: 1, NumConns: 1})
+	if err != nil {
+		return "env-error:" + err.Error()
+	}
+	defer env.Close()
+	var cls [2]*e2e.Client
+	for i := range cls {
+		c, err := env.Dial(primitive.ProtocolVersion4, "")
+		if err != nil {
+			return "dial-error"
+		}
+		defer c.Close()
+		_ = c.Send(9, &message.Register{EventTypes: []primitive.EventType{primitive.EventTypeSchemaChange}})
+		if _, err := c.Recv(2 * time.Second); err != nil {
+			return "register-unanswered"
+		}
+		cls[i] = c
+	}
+	var counts [2]int64
+	var wg sync.WaitGroup
+	for i := range cls {
+		wg.Add(1)
+		go func(i int) {
+			defer wg.Done()
+			if i == 0 {
+				time.Sleep(time.Duration(ms) * time.Millisecond)
+			}
+			for {
+				r, err := cls[i].Recv(4 * time.Second)
+				if err != nil {
+					return
+				}
+				if r.Frame != nil {
+					if _, ok := r.Frame.Body.Message.(*message.SchemaChangeEvent); ok {
+						if atomic.AddInt64(&counts[i], 1) >= int64(n) {
+							return
+						}
+					}
+				}
+			}
+		}(i)
+	}
+	args := make([]string, nargs)
+	for i := range args {
+		args[i] = "int"
+	}
+	for k := 1; k <= n; k++ {
+		env.Cluster.Event(&message.SchemaChangeEvent{ChangeType: primitive.SchemaChangeTypeCreated, Target: primitive.SchemaChangeTargetFunction,
+			Keyspace: fmt.Sprintf("ks%d", k), Object: "fn", Arguments: args})
+	}
+	wg.Wait()
+	return fmt.Sprintf("z0=%d z1=%d", atomic.LoadInt64(&counts[0]), atomic.LoadInt64(&counts[1]))
+}
+
 func genEvents(e *emitter, r *rng.R, n int, tier string) {
 	ops := []string{
 		"L:3 c0 c1 c2 r0:SCHEMA_CHANGE r1:TOPOLOGY_CHANGE,STATUS_CHANGE s1:K t u s2:T d0 s3:F",
@@ -278,6 +347,7 @@ func genEvents(e *emitter, r *rng.R, n int, tier string) {
 		"L:2 c0 c1 r0:SCHEMA_CHANGE y1:K s2:T",
 		"L:2 c0 c1 r0:SCHEMA_CHANGE r1:SCHEMA_CHANGE s1:T s1:T s2:K s1:T",
 		"L:2 c0:3 c1 r0:SCHEMA_CHANGE r1:SCHEMA_CHANGE s1:F s2:A s3:K s4:T s5:Y s6:F",
+		"Z:3600:1500:1500", // more events than every queue on the way holds, with one client not reading
 		"L:1 c0 r0:SCHEMA_CHANGE s1:K y2:T y3:A s4:F",
 	}
 	defer func() { e.emitAll(ops, 8) }()
